@@ -1211,7 +1211,7 @@ def changed_functions():
                         except Unsupported:
                             out.add(f.name)
                             continue
-                        if key in recorded and recorded[key] != sk:
+                        if key in recorded and recorded[key] != [lean_str(t)[1:-1] for t in sk]:
                             out.add(f.name)
                             out |= {n.name for n in ast.walk(f) if isinstance(n, ast.FunctionDef)}
                         elif key not in recorded and fns is ALL:
